@@ -10,6 +10,9 @@ args = sys.argv[1:]
 base = "selftest"
 if "--dir" in args:
     i = args.index("--dir"); base = args[i + 1]; del args[i:i + 2]
+only_prop = None
+if "--property" in args:
+    i = args.index("--property"); only_prop = args[i + 1]; del args[i:i + 2]
 names = args or sorted(os.path.basename(os.path.dirname(p)) for p in glob.glob(f"{V}/{base}/*/meta.json"))
 scratch_root = os.environ.get("VERIF_SCRATCH", "/var/tmp")
 bad = 0
@@ -17,6 +20,10 @@ for n in names:
     d = f"{V}/{base}/{n}"
     meta = json.load(open(d + "/meta.json"))
     props = meta["property"] if isinstance(meta["property"], list) else [meta["property"]]
+    if only_prop:
+        if only_prop not in props:
+            continue
+        props = [only_prop]
     tmp = tempfile.mkdtemp(prefix="verif-st-", dir=scratch_root)
     try:
         repo = tmp + "/repo"
